@@ -101,9 +101,9 @@ deriving Repr, DecidableEq
 /-- **C13.** `victim`'s transport blocks at / fails its `at`-th write, or item `badIdx` (goroutine 0) cannot be encoded for it.
     Every other channel is complete; the victim is sound; a blocked victim carried exactly the writes before the
     blocking one; a victim whose write failed (or that was handed an unencodable item) was either reported closed or kept
-    delivering EVERY later write: it carried everything addressed to it except the one item whose write failed (the scenarios
+    delivering EVERY later write: it carried everything addressed to it except the items whose writes failed (a run of consecutive writes) (the scenarios
     stay below the queue bound, so nothing else may be missing). -/
-def stallLegal (p : Plan) (ownSys : Nat) (mode : StallMode) (victim atIdx failedItem : Nat)
+def stallLegal (p : Plan) (ownSys : Nat) (mode : StallMode) (victim atIdx : Nat) (failedItems : List Nat)
     (obs : List (List (Option Obs))) (closeSeen : List Bool) : Bool :=
   (List.range obs.length).all (fun c =>
     if c == victim then
@@ -114,7 +114,7 @@ def stallLegal (p : Plan) (ownSys : Nat) (mode : StallMode) (victim atIdx failed
        -- flight and exactly a full queue (64 items) behind it get through, in order; the rest was discarded for this channel only
        | .pause => tags ((obs.getD c []).filterMap id) == (expected p c).take (atIdx + 1 + 64)
        | .fail => closeSeen.getD c false ||
-           tags ((obs.getD c []).filterMap id) == (expected p c).filter (fun t => !(t.1 == 0 && t.2 == failedItem))
+           tags ((obs.getD c []).filterMap id) == (expected p c).filter (fun t => !(t.1 == 0 && failedItems.contains t.2))
        | .bad => closeSeen.getD c false || channelComplete p ownSys c (obs.getD c []))
     else channelComplete p ownSys c (obs.getD c [])) &&
   allPairs (obs.map (fun o => tags (o.filterMap id)))
